@@ -68,7 +68,7 @@ impl ToTokens for DiscriminantType {
 
 impl DiscriminantType {
     pub(crate) fn from_ast(ast: &DeriveInput) -> syn::Result<Self> {
-        if let Data::Enum(data) = &ast.data {
+        if let Data::Enum(_) = &ast.data {
             for attr in ast.attrs.iter() {
                 if attr.path().is_ident("repr") {
                     // #[repr(u8)], #[repr(u16)], ..., etc.
@@ -87,6 +87,38 @@ impl DiscriminantType {
 
             let mut min = i128::MAX;
             let mut max = i128::MIN;
+
+            for counter in Self::values_from_ast(ast)? {
+                if min > counter {
+                    min = counter;
+                }
+
+                if max < counter {
+                    max = counter;
+                }
+            }
+
+            Ok(if min >= i8::MIN as i128 && max <= i8::MAX as i128 {
+                Self::I8
+            } else if min >= i16::MIN as i128 && max <= i16::MAX as i128 {
+                Self::I16
+            } else if min >= i32::MIN as i128 && max <= i32::MAX as i128 {
+                Self::I32
+            } else if min >= i64::MIN as i128 && max <= i64::MAX as i128 {
+                Self::I64
+            } else {
+                Self::I128
+            })
+        } else {
+            Err(syn::Error::new(ast.span(), "not an enum"))
+        }
+    }
+
+    /// The discriminant value of every variant (the explicit literal, otherwise the previous
+    /// one plus one), in declaration order.
+    pub(crate) fn values_from_ast(ast: &DeriveInput) -> syn::Result<Vec<i128>> {
+        if let Data::Enum(data) = &ast.data {
+            let mut values = Vec::with_capacity(data.variants.len());
             let mut counter = 0i128;
 
             for variant in data.variants.iter() {
@@ -140,28 +172,12 @@ impl DiscriminantType {
                     }
                 }
 
-                if min > counter {
-                    min = counter;
-                }
-
-                if max < counter {
-                    max = counter;
-                }
+                values.push(counter);
 
                 counter = counter.saturating_add(1);
             }
 
-            Ok(if min >= i8::MIN as i128 && max <= i8::MAX as i128 {
-                Self::I8
-            } else if min >= i16::MIN as i128 && max <= i16::MAX as i128 {
-                Self::I16
-            } else if min >= i32::MIN as i128 && max <= i32::MAX as i128 {
-                Self::I32
-            } else if min >= i64::MIN as i128 && max <= i64::MAX as i128 {
-                Self::I64
-            } else {
-                Self::I128
-            })
+            Ok(values)
         } else {
             Err(syn::Error::new(ast.span(), "not an enum"))
         }
